@@ -301,6 +301,181 @@ Section Nest.
           destruct (default_of (funcs p') c); [injection Hval as <-; reflexivity|discriminate].
       + intros c Hc. destruct (Hcov c Hc) as [v0 Hv]. apply (In_aget args c v0 Hv).
   Qed.
+
+  (* ---------- the converse: what the original computes, the pipeline with the nested function computes,
+     provided the arguments of the nested function have values ---------- *)
+  Lemma F_args_ok n args : args_with (neval body pick n p' kw) (funcs p') kw F = Ok args -> args_ok args.
+  Proof.
+    intros Ea.
+      unfold args_with in Ea. rewrite HF_params in Ea.
+      pose proof (mapM_Forall2 _ (fun (po : str * str) (y : str * str) =>
+                     fst y = snd po /\ arg_val (neval body pick n p' kw) (funcs p') kw F (fst po) = Ok (snd y)) _ _ Ea) as HF2.
+      assert (HF2' : Forall2 (fun (po y : str * str) =>
+                        fst y = snd po /\ arg_val (neval body pick n p' kw) (funcs p') kw F (fst po) = Ok (snd y))
+                             (map (fun n0 : str => (n0, n0)) ps) args).
+      { apply HF2. intros [c c'] y _ Ey0. cbn [fst snd] in *.
+        destruct (arg_val (neval body pick n p' kw) (funcs p') kw F c) as [v0|]; cbn [bind] in Ey0; [|discriminate].
+        injection Ey0 as <-. cbn. auto. }
+      clear HF2.
+      assert (Hentry : forall c v0, In (c, v0) args -> In c ps /\ arg_val (neval body pick n p' kw) (funcs p') kw F c = Ok v0).
+      { clear -HF2'. remember (map (fun n0 : str => (n0, n0)) ps) as l eqn:El. revert ps El.
+        induction HF2'; intros ps0 El c v0 Hin; [destruct Hin|].
+        destruct ps0 as [|q ps1]; [discriminate|]. cbn in El. injection El as -> ->.
+        destruct Hin as [Hy|Hin].
+        - destruct H as [H1 H2]. subst y. cbn [fst snd] in H1, H2. subst q. split; [left; reflexivity|exact H2].
+        - destruct (IHHF2' ps1 eq_refl c v0 Hin) as [A1 A2]. split; [right; exact A1|exact A2]. }
+      assert (Hcov : forall c, In c ps -> exists v0, In (c, v0) args).
+      { clear -HF2'. remember (map (fun n0 : str => (n0, n0)) ps) as l eqn:El. revert ps El.
+        induction HF2'; intros ps0 El c Hin.
+        - destruct ps0; [destruct Hin|discriminate].
+        - destruct ps0 as [|q ps1]; [discriminate|]. cbn in El. injection El as -> ->.
+          destruct Hin as [<-|Hin].
+          + destruct H as [H1 _]. destruct y as [a b]. cbn in H1. subst. exists b. left. reflexivity.
+          + destruct (IHHF2' ps1 eq_refl c Hin) as [v0 Hv]. exists v0. right. exact Hv. }
+      split.
+      + intros c v0 Hget. apply aget_In in Hget. destruct (Hentry c v0 Hget) as [Hc Hval]. split; [exact Hc|].
+        unfold arg_val in Hval. rewrite HF_bound in Hval. cbn [aget] in Hval.
+        destruct (aget kw c) as [v1|] eqn:Ek.
+        { injection Hval as <-. left. exact Ek. }
+        destruct (is_output (funcs p') c) eqn:Eo.
+        * destruct (nest_sound n c v0 Hval) as [k Hk]. right. left. split; [exact Ek|]. split; [apply is_output_p'_p; exact Eo|]. eauto.
+        * right. right. split; [exact Ek|].
+          assert (Hop : is_output (funcs p) c = false).
+          { destruct (is_output (funcs p) c) eqn:Eop; [|reflexivity]. exfalso.
+            rewrite is_output_funcs in Eop. destruct (nproducer p c) as [z0|] eqn:Ez0; [|discriminate].
+            apply nproducer_In in Ez0 as [Z1 Z2]. rewrite is_output_funcs in Eo.
+            destruct (Hcover z0 Z1) as [Hr|Hf].
+            + destruct (nproducer_exists p' c z0) as [w Ew]; [unfold p'; apply in_or_app; left; exact Hr|exact Z2|].
+              rewrite Ew in Eo. discriminate.
+            + apply (Hps2 c Hc). apply in_all_outputs. eauto. }
+          split; [exact Hop|]. rewrite <- (Hdef c Hop).
+          destruct (default_of (funcs p') c); [injection Hval as <-; reflexivity|discriminate].
+      + intros c Hc. destruct (Hcov c Hc) as [v0 Hv]. apply (In_aget args c v0 Hv).
+  Qed.
+
+  Lemma neval_det n m o v v' : neval body pick n p kw o = Ok v -> neval body pick m p kw o = Ok v' -> v = v'.
+  Proof.
+    intros H1 H2. pose proof (neval_mono body pick n p kw o v H1 (Nat.max n m) (Nat.le_max_l n m)) as A.
+    pose proof (neval_mono body pick m p kw o v' H2 (Nat.max n m) (Nat.le_max_r n m)) as B. congruence.
+  Qed.
+
+  Lemma nprod_fs g m : In g fs -> In m (outs (nf g)) -> nproducer fs m = Some g.
+  Proof.
+    intros H1 H2. destruct (nproducer_exists fs m g H1 H2) as [x E]. rewrite E. f_equal.
+    apply nproducer_In in E as [E1 E2]. eapply Huniq; eauto.
+  Qed.
+
+  Variable Fargs : alist.
+  Variable Mf : nat.
+  Hypothesis HFargs : args_with (neval body pick Mf p' kw) (funcs p') kw F = Ok Fargs.
+
+  (* inside the group: the inner pipeline, called with the arguments of the nested function, computes what p computes *)
+  Lemma nest_inner_complete : forall n m v, In m (all_outputs (funcs fs)) -> neval body pick n p kw m = Ok v ->
+    exists k, neval body pick k fs Fargs m = Ok v.
+  Proof.
+    pose proof (F_args_ok Mf Fargs HFargs) as [Hok1 Hok2].
+    induction n as [|n IH]; intros m v Hm E; [discriminate|].
+    apply in_all_outputs in Hm as (g & Hg & Hmo).
+    cbn [neval] in E. rewrite (nproducer_p g m (Hfs g Hg) Hmo) in E.
+    destruct (args_with (neval body pick n p kw) (funcs p) kw (nf g)) as [gargs|] eqn:Ea; cbn [bind] in E; [|discriminate].
+    assert (HN : exists N, forall M, N <= M -> args_with (neval body pick M fs Fargs) (funcs fs) Fargs (nf g) = Ok gargs).
+    { unfold args_with in *.
+      apply (mapM_exists_fuel _ (fun M (po : str * str) =>
+               do v0 <- arg_val (neval body pick M fs Fargs) (funcs fs) Fargs (nf g) (fst po); Ok (snd po, v0)) _ _ Ea).
+      intros [cur orig] y Hco Ey. cbn [fst snd] in *.
+      assert (Hc : In cur (pnames (nf g))).
+      { unfold pnames. change cur with (fst (cur, orig)). apply in_map. exact Hco. }
+      unfold arg_val in Ey. unfold arg_val.
+      destruct (aget (bound (nf g)) cur) as [b|] eqn:Eb; [exists 0; intros M _; exact Ey|].
+      assert (Hub : ahas (bound (nf g)) cur = false) by (unfold ahas; rewrite Eb; reflexivity).
+      destruct (Hps1 g cur Hg Hc Hub) as [Hp|Hp].
+      - (* a parameter of the nested function: the value it was resolved to is the value p uses *)
+        destruct (Hok2 cur Hp) as [vc Evc]. destruct (Hok1 cur vc Evc) as [_ Hres].
+        exists 0. intros M _. rewrite Evc.
+        assert (Hy : y = (orig, vc)).
+        { destruct Hres as [H|[(H1 & H2 & n' & H3)|(H1 & H2 & H3)]].
+          - rewrite H in Ey. injection Ey as <-. reflexivity.
+          - rewrite H1, H2 in Ey. destruct (neval body pick n p kw cur) as [w|] eqn:Ew; cbn [bind] in Ey; [|discriminate].
+            injection Ey as <-. rewrite (neval_det n n' cur w vc Ew H3). reflexivity.
+          - rewrite H1, H2, H3 in Ey. injection Ey as <-. reflexivity. }
+        subst y. reflexivity.
+      - (* produced inside the group *)
+        assert (Hk0 : aget kw cur = None).
+        { apply aget_None_keys. intros Hin. apply (Hkw cur Hin). exact Hp. }
+        assert (Hop : is_output (funcs p) cur = true).
+        { apply in_all_outputs in Hp as (z & Z1 & Z2). rewrite is_output_funcs, (nproducer_p z cur (Hfs z Z1) Z2). reflexivity. }
+        rewrite Hk0, Hop in Ey.
+        destruct (neval body pick n p kw cur) as [w|] eqn:Ew; cbn [bind] in Ey; [|discriminate].
+        destruct (IH cur w Hp Ew) as [k Hk].
+        assert (Ha0 : aget Fargs cur = None).
+        { destruct (aget Fargs cur) as [x|] eqn:Ex; [|reflexivity]. exfalso.
+          destruct (Hok1 cur x Ex) as [Hin _]. apply (Hps2 cur Hin). exact Hp. }
+        assert (Hof : is_output (funcs fs) cur = true).
+        { apply in_all_outputs in Hp as (z & Z1 & Z2). rewrite is_output_funcs, (nprod_fs z cur Z1 Z2). reflexivity. }
+        exists k. intros M HM. rewrite Ha0, Hof, (neval_mono body pick k fs Fargs cur w Hk M HM). exact Ey. }
+    destruct HN as [N HNn]. exists (S (Nat.max N n)). cbn [neval]. rewrite (nprod_fs g m Hg Hmo).
+    rewrite (HNn (Nat.max N n)) by lia. cbn [bind].
+    apply (call_transfer g gargs m v n (Nat.max N n)); [lia|exact E].
+  Qed.
+
+  (* nest_complete *)
+  Theorem nest_complete : forall n o v, neval body pick n p kw o = Ok v -> In o (all_outputs (funcs p')) ->
+    exists m, neval body pick m p' kw o = Ok v.
+  Proof.
+    induction n as [|n IH]; intros o v E Ho; [discriminate|].
+    apply in_all_outputs in Ho as (x & Hx & Hox). unfold p' in Hx. apply in_app_or in Hx as [Hx|[<-|[]]].
+    - (* a function outside the group *)
+      assert (Ep' : nproducer p' o = Some x).
+      { unfold p'. rewrite nproducer_app. destruct (nproducer_exists rest o x Hx Hox) as [y Ey]. rewrite Ey. f_equal.
+        apply nproducer_In in Ey as [Y1 Y2]. symmetry. eapply Huniq; eauto. }
+      cbn [neval] in E. rewrite (nproducer_p x o (Hrest x Hx) Hox) in E.
+      destruct (args_with (neval body pick n p kw) (funcs p) kw (nf x)) as [args|] eqn:Ea; cbn [bind] in E; [|discriminate].
+      assert (HN : exists N, forall M, N <= M -> args_with (neval body pick M p' kw) (funcs p') kw (nf x) = Ok args).
+      { unfold args_with in *.
+        apply (mapM_exists_fuel _ (fun M (po : str * str) =>
+                 do v0 <- arg_val (neval body pick M p' kw) (funcs p') kw (nf x) (fst po); Ok (snd po, v0)) _ _ Ea).
+        intros [cur orig] y Hco Ey. cbn [fst snd] in *.
+        assert (Hc : In cur (pnames (nf x))).
+        { unfold pnames. change cur with (fst (cur, orig)). apply in_map. exact Hco. }
+        unfold arg_val in Ey. unfold arg_val.
+        destruct (aget (bound (nf x)) cur) as [b|] eqn:Eb; [exists 0; intros M _; exact Ey|].
+        destruct (aget kw cur) as [v1|] eqn:Ek; [exists 0; intros M _; exact Ey|].
+        assert (Hub : ahas (bound (nf x)) cur = false) by (unfold ahas; rewrite Eb; reflexivity).
+        destruct (is_output (funcs p) cur) eqn:Eo.
+        - destruct (neval body pick n p kw cur) as [w|] eqn:Ew; cbn [bind] in Ey; [|discriminate].
+          assert (Hret : In cur (all_outputs (funcs p'))).
+          { rewrite is_output_funcs in Eo. destruct (nproducer p cur) as [z|] eqn:Ez; [|discriminate].
+            apply nproducer_In in Ez as [Z1 Z2]. apply in_all_outputs. destruct (Hcover z Z1) as [Hr|Hf].
+            + exists z. split; [unfold p'; apply in_or_app; left; exact Hr|exact Z2].
+            + exists nd. split; [unfold p'; apply in_or_app; right; left; reflexivity|].
+              cbn [nf nd]. rewrite HF_outs. apply (Hhidden x cur Hx Hc Hub). apply in_all_outputs. eauto. }
+          destruct (IH cur w Ew Hret) as [k Hk]. exists k. intros M HM.
+          assert (Eo' : is_output (funcs p') cur = true).
+          { apply in_all_outputs in Hret as (z & Z1 & Z2). rewrite is_output_funcs.
+            destruct (nproducer_exists p' cur z Z1 Z2) as [z' ->]. reflexivity. }
+          rewrite Eo', (neval_mono body pick k p' kw cur w Hk M HM). exact Ey.
+        - exists 0. intros M _.
+          assert (Eo' : is_output (funcs p') cur = false).
+          { destruct (is_output (funcs p') cur) eqn:E1; [|reflexivity]. apply is_output_p'_p in E1. congruence. }
+          rewrite Eo', (Hdef cur Eo). exact Ey. }
+      destruct HN as [N HNn]. exists (S (Nat.max N n)). cbn [neval]. rewrite Ep'.
+      rewrite (HNn (Nat.max N n)) by lia. cbn [bind].
+      apply (call_transfer x args o v n (Nat.max N n)); [lia|exact E].
+    - (* an output of the nested function *)
+      cbn [nf nd] in Hox. rewrite HF_outs in Hox.
+      assert (Ep' : nproducer p' o = Some nd).
+      { unfold p'. rewrite nproducer_app. destruct (nproducer rest o) as [y|] eqn:Ey.
+        - exfalso. apply nproducer_In in Ey as [Y1 Y2]. pose proof (Hoo o Hox) as Hg.
+          apply in_all_outputs in Hg as (g & G1 & G2).
+          apply (Hdisj y g Y1 G1). eapply Huniq; eauto.
+        - unfold nproducer. cbn [find]. cbn [nf nd]. rewrite HF_outs.
+          rewrite (proj2 (mem_str_In o oo) Hox). reflexivity. }
+      destruct (nest_inner_complete (S n) o v (Hoo o Hox) E) as [k Hk].
+      exists (S (Nat.max Mf k)). cbn [neval]. rewrite Ep'. cbn [nf nd].
+      rewrite (args_with_mono _ (neval body pick (Nat.max Mf k) p' kw) _ _ _ _ HFargs).
+      2:{ intros c v0 Hc. apply (neval_mono body pick Mf p' kw c v0 Hc). lia. }
+      cbn [bind ninner nd]. rewrite (orig_out_nd o Hox). apply (neval_mono body pick k fs Fargs o v Hk). lia.
+  Qed.
 End Nest.
 
 (* ------------------------------------------------------------------ root arguments keep their defaults *)
@@ -559,6 +734,59 @@ Section NestOp.
     { intros c Hc. eapply (nest_defaults p rest fs F (nested_outs fs new_out) ps); eassumption. }
     exact (nest_sound body pick p rest fs F (nested_outs fs new_out) ps kw Huniq Hrest Hfs Hcover HFo HFp HFb
                       Hoo Hps1 Hps2 Hkw Hhidden Hdef).
+  Qed.
+  (* nest_preserves, completeness direction: if the arguments of the new nested function (the last function of
+     the rewritten pipeline) have values, every retained output the original computes is computed alike *)
+  Definition dummy_node : node := Node (mkf [] [] [] [] [] false) [] None.
+  Theorem nest_preserves_complete names new_out p p' kw :
+    nest names new_out p = Ok p' ->
+    (forall n1 n2 o, In n1 p -> In n2 p -> In o (outs (nf n1)) -> In o (outs (nf n2)) -> n1 = n2) ->
+    (forall n, In n p -> outs (nf n) <> []) ->
+    let fs := group p names in
+    (forall k, In k (akeys kw) -> ~ In k (all_outputs (funcs fs))) ->
+    (forall a c, In a p -> ~ In a fs -> In c (pnames (nf a)) -> ahas (bound (nf a)) c = false ->
+                 In c (all_outputs (funcs fs)) -> In c (nested_outs fs new_out)) ->
+    (forall n k, In n p -> In k (akeys (dflt (nf n))) -> In k (pnames (nf n))) ->
+    consistent_defaults (funcs p) = true ->
+    (exists M args, args_with (neval body pick M p' kw) (funcs p') kw (nf (last p' dummy_node)) = Ok args) ->
+    forall n o v, neval body pick n p kw o = Ok v -> In o (all_outputs (funcs p')) ->
+                  exists m, neval body pick m p' kw o = Ok v.
+  Proof.
+    intros E Huniq Hne fs Hkw Hhid Hdk Hcons HFa. unfold nest in E.
+    destruct (mapM _ names) as [fs0|] eqn:Em; cbn [bind] in E; [|discriminate].
+    apply mapM_group in Em. fold fs in Em. subst fs0.
+    destruct (negb (nodup_strb (map nid fs))); [discriminate|].
+    destruct (mk_nested fs new_out) as [nd|] eqn:En; cbn [bind] in E; [|discriminate].
+    apply add_node_ok in E. subst p'.
+    destruct (mk_nested_shape fs new_out nd En) as (F & ps & -> & HFo & HFp & HFb & HFd & Hoo & Hps1 & Hps2).
+    set (rest := filter (fun x => negb (mem_str (nid x) (map nid fs))) p) in *.
+    assert (Hfs : incl fs p) by apply group_incl.
+    assert (Hnid : forall a b, In a p -> In b p -> nid a = nid b -> a = b).
+    { intros a b Ha Hb Hab. unfold nid, fid in Hab.
+      destruct (outs (nf a)) as [|oa ta] eqn:Ea; [exfalso; apply (Hne a Ha); exact Ea|].
+      destruct (outs (nf b)) as [|ob tb] eqn:Eb; [exfalso; apply (Hne b Hb); exact Eb|].
+      cbn in Hab. subst ob. apply (Huniq a b oa Ha Hb); [rewrite Ea; left; reflexivity|rewrite Eb; left; reflexivity]. }
+    assert (Hrest : incl rest p).
+    { intros x Hx. unfold rest in Hx. apply filter_In in Hx. tauto. }
+    assert (Hcover : forall x, In x p -> In x rest \/ In x fs).
+    { intros x Hx. destruct (mem_str (nid x) (map nid fs)) eqn:Emem.
+      + right. apply mem_str_In in Emem. apply in_map_iff in Emem as (g & Hg1 & Hg2).
+        rewrite (Hnid x g Hx (Hfs g Hg2) (eq_sym Hg1)). exact Hg2.
+      + left. unfold rest. apply filter_In. split; [exact Hx|]. rewrite Emem. reflexivity. }
+    assert (Hdisj : forall a b, In a rest -> In b fs -> a <> b).
+    { intros a b Ha Hb Hab. subst b. unfold rest in Ha. apply filter_In in Ha as [_ Ha].
+      apply negb_true_iff in Ha. apply mem_str_not_In in Ha. apply Ha. apply in_map. exact Hb. }
+    assert (Hhidden : forall a c, In a rest -> In c (pnames (nf a)) -> ahas (bound (nf a)) c = false ->
+                                  In c (all_outputs (funcs fs)) -> In c (nested_outs fs new_out)).
+    { intros a c Ha Hc Hb Hin. unfold rest in Ha. apply filter_In in Ha as [Ha1 Ha2].
+      apply (Hhid a c Ha1); auto. intros Hfa. apply negb_true_iff in Ha2. apply mem_str_not_In in Ha2.
+      apply Ha2. apply in_map. exact Hfa. }
+    assert (Hdef : forall c, is_output (funcs p) c = false ->
+                             default_of (funcs (rest ++ [Node F (nested_outs fs new_out) (Some fs)])) c = default_of (funcs p) c).
+    { intros c Hc. eapply (nest_defaults p rest fs F (nested_outs fs new_out) ps); eassumption. }
+    destruct HFa as (M & args & HFargs). rewrite last_last in HFargs. cbn [nf] in HFargs.
+    exact (nest_complete body pick p rest fs F (nested_outs fs new_out) ps kw Huniq Hrest Hfs Hcover Hdisj HFo HFp HFb
+                         Hoo Hps1 Hps2 Hkw Hhidden Hdef args M HFargs).
   Qed.
 End NestOp.
 
